@@ -32,7 +32,7 @@ EXPLANATION = ("Real TraceAnalysis.get_queue_length_time_series / get_memory_bw_
                "active at t (zero-length copy = one unit), >= 0; the written file = source events (unchanged, same "
                "order) followed by one counter event per series row at ts + min_ts. Non-trivial path = admits a queue "
                "length of 2 (or two copies active at once).")
-ASSUMPTIONS = ["WF host thread, unique correlation ids per side, kernel.ts >= launch.ts", "integer ts/dur in [0,2^52), "
+ASSUMPTIONS = ["WF host thread, unique correlation ids per side, kernel.ts >= launch.ts", "integer ts/dur in [0,2^40], "
                "bandwidth an exact non-negative real (float rounding outside the claim)",
                "write_raw_trace and JSON reading stubbed in the symbolic run; natively the written gzip file is read back"]
 STUBS = ["hta.common.trace_parser.parse_trace_dict", "Trace._validate_trace_files", "Trace.write_raw_trace", "plotly",
